@@ -226,6 +226,21 @@ func (p *prop) tagsAndOracle(k *kase, impl string, o *obs, out *core.Outcome) {
 		return
 	}
 
+	// ---------------- OM: the real `client_ip` matcher (ip_matchers.go) sees exactly the attributed address
+	{
+		mp, _ := parsePrefixes(k.matcherRanges())
+		want := false
+		if a, err := netip.ParseAddr(o.clientIP); err == nil {
+			want = anyContains(mp, a)
+		}
+		if o.matchedIP != want {
+			fail("client-ip-matcher-disagrees", fmt.Sprintf("client_ip matcher over %v says %v for client_ip %q", k.matcherRanges(), o.matchedIP, o.clientIP))
+		}
+		if o.matchedIP {
+			tag("client_ip-matcher:match")
+		}
+	}
+
 	// ---------------- O0: the trusted flag is exactly "peer address is in a configured range"
 	if o.trusted != srvTrusted {
 		fail("trusted-flag-wrong", fmt.Sprintf("trusted_proxy var is %v but the peer %q is in the server's trusted ranges: %v", o.trusted, k.remote, srvTrusted))
@@ -293,9 +308,13 @@ func (p *prop) tagsAndOracle(k *kase, impl string, o *obs, out *core.Outcome) {
 	if !srvTrusted {
 		// two-run relation: the attacker re-chooses every forwarding header
 		for vi, hv := range variants(k) {
-			impl2, _, err := p.serve(k, hv)
+			impl2, o2, err := p.serve(k, hv)
 			if err != nil {
 				continue
+			}
+			if o2.matchedIP != o.matchedIP {
+				fail("untrusted-header-influences-client-ip-matcher", fmt.Sprintf("variant %d of the forwarding headers flips the client_ip matcher", vi))
+				break
 			}
 			if ipPart(impl2) != ipPart(impl) {
 				fail("untrusted-header-influences-client-ip", fmt.Sprintf("variant %d of the forwarding headers changes %q into %q", vi, ipPart(impl), ipPart(impl2)))
